@@ -136,3 +136,20 @@ REGISTRY["C12"] = {
          "checks": {"quick": 60, "thorough": 1000}, "shards": {"quick": 4, "thorough": 8}},
     ],
 }
+
+REGISTRY["C08"] = {
+    "pkg": "props/c08",
+    "level": "exploration",
+    "level_text": ("rapid-drawn answer histories per task request: 1..3 Do calls, sequential or released concurrently, each a distinguishable payload "
+                   "(results with declared/undeclared names, data outputs declared/undeclared, error without handler, skip, exit, retry 0..3), up to 4 attempts "
+                   "(re-requests), all nine task kinds, a downstream exclusive gateway that reads the stored result, error modes on the downstream task too. "
+                   "After each attempt the instance is brought to quiescence: every Do must have returned (a Do goroutine parked at the fixpoint is the "
+                   "'blocks forever' verdict), and requests/variables/data objects/error-trace count must equal the model outcome of exactly one of the "
+                   "allowed effective calls (the first for sequential calls, any one for concurrent calls). Perturbation point inside Do widens the race window."),
+    "level_note": "Trusted: the 60-line outcome model in props/c08, quiescence detector. Exactness of the retry count is asserted for the first failing activity of a token, the upper bound ('at most') for the downstream task.",
+    "technique": "rapid property test over generated answer histories with an explicit outcome model; stuck detection by goroutine snapshot; schedule perturbation hook",
+    "rule": ("Distinct = descriptor (task kind, declared names, histories, perturbation seed). Non-trivial = some attempt has >=2 Do calls, or an error mode, or an undeclared name."),
+    "tests": [
+        {"name": "TestC08Histories", "checks": {"quick": 400, "thorough": 20000}, "shards": {"quick": 16, "thorough": 16}, "gomaxprocs": [4, 2, 16, 8]},
+    ],
+}
